@@ -7,41 +7,89 @@ BIN = "h_world"
 
 # Per property: monitor tags that decide it, op kinds whose results form its projection of the
 # transcript (a model/implementation DIFF on another op kind is somebody else's business).
+STORE_OPS = ["get", "getmut", "has", "ins", "rem", "entry_or", "entry_rep", "entry_rem", "mut_or_default"]
 PROPS = {
-    "C01": {"mon": ["C01"], "proj": ["create", "create_iter"],
+    "C01": {"mon": ["C01"], "proj": ["create", "create_iter", "createw", "lazy_create"], "kind": "ent",
             "what": "handles returned by every creation path are never repeated; no two not-dead handles share an index"},
-    "C02": {"mon": ["C02"], "proj": ["del_now", "del_batch", "del_atomic", "del_all", "maintain", "alive", "walive", "ejoin"],
+    "C02": {"mon": ["C02"], "proj": ["del_now", "del_batch", "del_atomic", "del_all", "maintain", "alive", "walive", "ejoin"], "kind": "ent",
             "what": "aliveness answers, deletion results/positions and entity joins follow the create/delete/maintain timeline"},
-    "C17": {"mon": ["C17"], "proj": ["create", "create_iter"],
+    "C17": {"mon": ["C17"], "proj": ["create", "create_iter", "createw", "lazy_create"], "kind": "ent",
             "what": "every index handed out is below the running peak of simultaneously not-dead entities"},
+    "C03": {"mon": ["C03"], "proj": STORE_OPS + ["rjoin"], "kind": "store", "focus": ["any", "far", "many", "rjoin"], "sexh": [0, 1, 3, 7],
+            "what": "every handle-taking storage access through a dead or stale handle behaves as absent and changes nothing"},
+    "C04": {"mon": ["C04"], "proj": STORE_OPS + ["count", "empty", "mask", "clear", "drain", "slice", "createw"], "kind": "store",
+            "focus": ["any", "far", "many", "any"], "sexh": list(range(12)),
+            "what": "every storage kind is observably a plain map from live entity to component (results, mask, count, slices)"},
+    "C05": {"mon": ["C05"], "proj": ["del_now", "del_batch", "del_atomic", "del_all", "maintain", "mask", "createw", "create", "create_iter", "reg", "lazy_create"],
+            "kind": "store", "focus": ["many", "any", "lazy", "many"], "sexh": [1, 6],
+            "what": "a deletion taking effect purges the entity's components from every registered storage and nothing else; new entities start empty"},
+    "C08": {"mon": ["C08"], "proj": ["drop_world"], "ledger": True, "kind": "store", "focus": ["ledger", "any", "lazy", "many"], "sexh": [0, 1, 2, 5],
+            "what": "every value moved into the world is returned or destroyed exactly once; nothing is leaked once the world is dropped"},
+    "C09": {"mon": ["C09"], "proj": ["lazy_ins", "lazy_ins_all", "lazy_rem", "lazy_create", "lazy_exec", "maintain", "in"], "kind": "store",
+            "focus": ["lazy", "lazy", "lazy", "many"], "sexh": [1],
+            "what": "queued lazy actions run exactly once, in queue order, after merge and purge, and act only on their live target"},
+    "C12": {"mon": ["C12"], "proj": ["events", "emit"], "kind": "store", "focus": ["tracked", "tracked", "tracked", "many"], "sexh": [6, 7, 8, 9, 10, 11],
+            "what": "tracked storages emit exactly the insert/modify/remove events of each operation, in order"},
+    "C13": {"mon": ["C13"], "proj": ["rjoin"], "kind": "store", "focus": ["rjoin", "rjoin", "tracked", "many"], "sexh": [1, 7, 10],
+            "what": "restricted storages visit exactly the members, read/write like direct lookups, apply the storage rule to other-entity lookups and flag only mutable fetches"},
 }
 
 
-def plan(tier, seed):
+def plan(prop, tier, seed):
     """Harness invocations for a tier: (label, argv-tail)."""
+    spec = PROPS[prop]
     runs = []
     for f in sorted(glob.glob(os.path.join(vlib.VERIF, "corpus", "world", "*.ops"))):
         runs.append(("corpus:" + os.path.basename(f), ["run", f]))
-    if tier == "quick":
-        runs += [("exh3", ["exh", "3"]), ("exh4", ["exh", "4"])]
-        for i in range(4):
-            runs.append((f"gen{i}", ["gen", str(seed * 1000 + i), "500", "60"]))
+    if spec["kind"] == "ent":
+        if tier == "quick":
+            runs += [("exh3", ["exh", "3"]), ("exh4", ["exh", "4"])]
+            for i in range(4):
+                runs.append((f"gen{i}", ["gen", str(seed * 1000 + i), "500", "60"]))
+            runs.append(("sgen", ["sgen", str(seed), "300", "40", "any"]))
+        else:
+            runs += [("exh3", ["exh", "3"]), ("exh4", ["exh", "4"])]
+            for s in range(16):
+                runs.append((f"exh5/{s}", ["exh", "5", str(s), "16"]))
+            for s in range(32):
+                runs.append((f"exh6/{s}", ["exh", "6", str(s), "32"]))
+            for i in range(16):
+                runs.append((f"gen{i}", ["gen", str(seed * 1000 + i), "3000", "150"]))
+            for i in range(4):
+                runs.append((f"genlong{i}", ["gen", str(seed * 1000 + 100 + i), "40", "20000"]))
+            for i in range(8):
+                runs.append((f"sgen{i}", ["sgen", str(seed * 1000 + i), "2000", "80", "any"]))
     else:
-        runs += [("exh3", ["exh", "3"]), ("exh4", ["exh", "4"])]
-        for s in range(16):
-            runs.append((f"exh5/{s}", ["exh", "5", str(s), "16"]))
-        for s in range(32):
-            runs.append((f"exh6/{s}", ["exh", "6", str(s), "32"]))
-        for i in range(16):
-            runs.append((f"gen{i}", ["gen", str(seed * 1000 + i), "3000", "150"]))
-        for i in range(4):
-            runs.append((f"genlong{i}", ["gen", str(seed * 1000 + 100 + i), "40", "20000"]))
+        foci = spec["focus"]
+        if tier == "quick":
+            for i, f in enumerate(foci):
+                runs.append((f"sgen-{f}-{i}", ["sgen", str(seed * 1000 + i), "350", "45", f]))
+            for k in spec["sexh"][:4]:
+                runs.append((f"sexh{k}/3", ["sexh", str(k), "3"]))
+        else:
+            for rep in range(4):
+                for i, f in enumerate(foci):
+                    runs.append((f"sgen-{f}-{rep}.{i}", ["sgen", str(seed * 1000 + 10 * rep + i), "2500", "90", f]))
+            for k in spec["sexh"]:
+                runs.append((f"sexh{k}/3", ["sexh", str(k), "3"]))
+                for s in range(4):
+                    runs.append((f"sexh{k}/4/{s}", ["sexh", str(k), "4", str(s), "4"]))
     return runs
+
+
+LEDGER = {"on": False}
+
+
+def henv():
+    e = dict(os.environ)
+    if LEDGER["on"]:
+        e["VH_LEDGER"] = "1"
+    return e
 
 
 def run_one(args):
     label, tail = args
-    lines, hrc, err = vlib.pipe_to_driver([vlib.hbin(BIN)] + tail)
+    lines, hrc, err = vlib.pipe_to_driver([vlib.hbin(BIN)] + tail, env=henv())
     r = vlib.parse_driver(lines)
     r["label"], r["tail"], r["hrc"], r["err"] = label, tail, hrc, err
     return r
@@ -53,7 +101,11 @@ def relevant(prop, r):
     diffs = []
     for d in r["diff"]:
         op = (vlib.field(d, "op") or "[]").strip("[]").split()
+        if op and op[0] == "in" and "in" not in spec["proj"]:
+            op = op[2:]
         if op and op[0] in spec["proj"]:
+            diffs.append(d)
+        elif spec.get("ledger") and "impl=[destroyed" in d:
             diffs.append(d)
     return mons, diffs
 
@@ -63,7 +115,7 @@ def run_script_ops(ops):
     path = os.path.join(vlib.TMP, f"script-{os.getpid()}-{time.time_ns()}.ops")
     with open(path, "w") as f:
         f.write("case s\n" + "\n".join(ops) + "\n")
-    lines, hrc, err = vlib.pipe_to_driver([vlib.hbin(BIN), "run", path], timeout=120)
+    lines, hrc, err = vlib.pipe_to_driver([vlib.hbin(BIN), "run", path], timeout=120, env=henv())
     os.unlink(path)
     r = vlib.parse_driver(lines)
     r["hrc"] = hrc
@@ -72,7 +124,7 @@ def run_script_ops(ops):
 
 def case_ops(r, case_id):
     path = os.path.join(vlib.TMP, f"tr-{os.getpid()}-{time.time_ns()}.txt")
-    vlib.pipe_to_driver([vlib.hbin(BIN)] + r["tail"], keep=path)
+    vlib.pipe_to_driver([vlib.hbin(BIN)] + r["tail"], keep=path, env=henv())
     ops = vlib.extract_case(path, case_id)
     os.unlink(path)
     return ops
@@ -88,7 +140,7 @@ def search_from(prop, base_ops, tier, seed):
     found = None
     for tail in (["cont", path, depth], ["contgen", path, str(seed), "400" if tier == "quick" else "5000", "12"]):
         keep = os.path.join(vlib.TMP, f"cont-{os.getpid()}.txt")
-        lines, hrc, err = vlib.pipe_to_driver([vlib.hbin(BIN)] + tail, keep=keep)
+        lines, hrc, err = vlib.pipe_to_driver([vlib.hbin(BIN)] + tail, keep=keep, env=henv())
         r = vlib.parse_driver(lines)
         mons, _ = relevant(prop, r)
         if mons:
@@ -191,6 +243,7 @@ def report_failures(prop, tier, seed, results):
 
 def check(prop, tier, seed, t0):
     spec = PROPS[prop]
+    LEDGER["on"] = bool(spec.get("ledger"))
     lean = vlib.build_lean(prop, thorough=(tier == "thorough"))
     violations = 0
     if not lean["ok"]:
@@ -205,7 +258,7 @@ def check(prop, tier, seed, t0):
         violations += 1
     else:
         with ThreadPoolExecutor(max_workers=16) as ex:
-            results = list(ex.map(run_one, plan(tier, seed)))
+            results = list(ex.map(run_one, plan(prop, tier, seed)))
         violations += report_failures(prop, tier, seed, results)
     # evidence
     stats = {}
@@ -217,7 +270,8 @@ def check(prop, tier, seed, t0):
     if ok:
         lines, _, _ = None, None, None
         import subprocess
-        s = subprocess.run([vlib.hbin(BIN), "gen", str(seed), "2", "8"], capture_output=True, text=True).stdout.splitlines()
+        sample_tail = ["gen", str(seed), "2", "8"] if spec["kind"] == "ent" else ["sgen", str(seed), "2", "10", spec["focus"][0]]
+        s = subprocess.run([vlib.hbin(BIN)] + sample_tail, capture_output=True, text=True, env=henv()).stdout.splitlines()
         samples = [l for l in s if not l.startswith("domain")][:40]
     n_thm = len(lean.get("theorems", []))
     n_ok = len([n for n in lean.get("theorems", []) if n in lean.get("axioms", {}) and set(lean["axioms"][n]) <= vlib.ALLOWED_AXIOMS]) if lean["ok"] else 0
@@ -232,13 +286,16 @@ def check(prop, tier, seed, t0):
         "evaluations": stats.get("cases", 0),
         "distinct_nontrivial": stats.get("distinct_nontrivial", 0),
         "rule": "cases = op histories executed on the real specs::World and replayed through the Lean model and the property monitors; "
-                "bounded-exhaustive over a 14-symbol entity alphabet plus seeded random histories (probing every logged handle after each mutating op); "
-                "a case is non-trivial when it reuses an index, has a failing deletion or queries a dead handle; distinct = distinct op scripts (hash), counted by the driver",
+                "bounded-exhaustive over a 14-symbol entity alphabet / a 16-symbol per-kind storage alphabet plus seeded random histories over 12 storage kinds "
+                "(probing every logged handle, every mask and every event channel after each mutating op); "
+                "a case is non-trivial when it reuses an index, has a failing deletion, accesses through a dead handle, runs a nested lazy script, "
+                "produces a change event or destroys a value; distinct = distinct op scripts (hash), counted by the driver",
         "traces_validated_against_impl": stats.get("cases", 0),
         "transcript_lines": stats.get("lines", 0),
         "model_vs_impl_disagreements": {"in_projection": sum(len(d) for _, d in rel), "all_ops": all_diffs},
         "impl_vs_monitor_failures": sum(len(m) for m, _ in rel),
-        "branch_hits": {k: stats.get(k, 0) for k in ("reuses", "err_kills", "dead_queries")},
+        "branch_hits": {k: stats.get(k, 0) for k in ("reuses", "err_kills", "dead_access", "nested", "events", "destroyed")},
+        "ops_by_kind": {k[3:]: v for k, v in stats.items() if k.startswith("op_")},
         "runs": [r["label"] for r in results],
         "samples": samples,
         "exhaustive": False,
@@ -253,10 +310,11 @@ def check(prop, tier, seed, t0):
 
 
 def replay(prop, path):
+    LEDGER["on"] = bool(PROPS[prop].get("ledger"))
     ok, blog = vlib.build_harness([BIN])
     if not ok:
         print(blog); return 2
-    lines, hrc, err = vlib.pipe_to_driver([vlib.hbin(BIN), "run", path])
+    lines, hrc, err = vlib.pipe_to_driver([vlib.hbin(BIN), "run", path], env=henv())
     for l in lines:
         print(l)
     r = vlib.parse_driver(lines)
